@@ -28,6 +28,9 @@ fn run(case_file: &str, out_file: Option<&str>) -> io::Result<()> {
         let result = cases::run_line(line);
         out.write_all(result.as_bytes())?;
         out.write_all(b"\n")?;
+        // one write per case: the checker watches the file grow (stall watchdog) and, when a runner dies or
+        // hangs, knows from the number of complete lines which case it was working on
+        out.flush()?;
     }
     out.flush()
 }
